@@ -216,6 +216,23 @@ def gen_c08(rng, tier, dist):
                 for sched in ([], [1000] * 30, [8191, 1, 1, 1], [511] * 50):
                     cases.append(frame_case(2, rng.choice(["eof", "err"]), sched, b"", body + b"220 next\r\n"))
                     dist.add("around-the-8192-cap")
+    # the data path under the sanitizers: the ASCII converters at their buffer sizes (8192), with a CR held back
+    # from the block before, blocks that fill the receive buffer exactly, and the boundary neighbours
+    HX = lambda b: (bytes(b).hex() if len(b) else "-")
+    for first in (b"abc\r", b"\r", b"x" * 8191 + b"\r", b"ab"):
+        for mid in (8191, 8192, 8193):
+            for fill in (b"a", b"\r", b"\n", b"a\r"):
+                body = (fill * mid)[:mid]
+                data = first + body + b"END\r\n"
+                cases.append("adown %d,%d,5 %s" % (len(first), mid, HX(data)))
+                dist.add("data-path:ascii-download-block-at-buffer-size")
+    for n in (8191, 8192, 8193, 16384, 16385):
+        for fill in (b"a", b"\n", b"\r", b"\r\n", b"a\n"):
+            data = (fill * n)[:n]
+            for isz in (8192,):
+                for sizes in ("8192", "8191", "1,8192", "4096"):
+                    cases.append("aup %d %s %s %s" % (isz, sizes, rng.choice(["-", "1", "8192", "100,8192"]), HX(data)))
+                    dist.add("data-path:ascii-upload-at-buffer-size")
     return cases
 
 
@@ -247,8 +264,10 @@ def run(prop, tier, seed):
         bad = None
         if "livelock" in i:
             bad = ("recv/never-returns-after-eof", "the receive step keeps reading after the transport reported end of stream")
-        elif i.startswith("CRASH") or i.startswith("NOT-RUN"):
-            bad = ("recv/crash-or-sanitizer-report", i[:300])
+        elif i.startswith("NOT-RUN"):
+            continue            # the process had died on an earlier case of the shard: that case carries the report
+        elif i.startswith("CRASH"):
+            bad = ("runtime/crash-or-sanitizer-report", i[:300])
         elif "exn:other" in i or "BUFFER-OVER-CAP" in i:
             bad = ("recv/foreign-exception-or-cap-exceeded", i[:200])
         elif prop == "C01" and i != s:
